@@ -80,7 +80,7 @@ peg::parser! {
             }
 
         rule since_clause() -> Clause
-            = ci("SINCE") _ ts:string_literal() {
+            = ci("SINCE") _ ts:(string_literal() / integer()) {
                 Clause::Since(ts.to_string())
             }
 
